@@ -62,14 +62,16 @@ fn lowest_free() -> Option<usize> {
     None
 }
 pub static mut PIPE_CALLS: u32 = 0;
-pub unsafe fn pipe(fds: *mut libc::c_int) -> libc::c_int {
+pub unsafe fn pipe(fds: *mut libc::c_int) -> libc::c_int { pipe2(fds, 0) }
+pub unsafe fn pipe2(fds: *mut libc::c_int, flags: libc::c_int) -> libc::c_int {
     PIPE_CALLS += 1;
     if kani::any() { return fail(); }
     let a = match lowest_free() { Some(a) => a, None => { ERRNO = libc::EMFILE; return -1; } };
     OPEN[a] = true;
     let b = match lowest_free() { Some(b) => b, None => { OPEN[a] = false; ERRNO = libc::EMFILE; return -1; } };
     OPEN[b] = true;
-    CLOEXEC[a] = false; CLOEXEC[b] = false; // plain pipe(): inheritable
+    let ce = flags & libc::O_CLOEXEC != 0;     // pipe2(O_CLOEXEC): both ends are born close-on-exec; plain pipe(): inheritable
+    CLOEXEC[a] = ce; CLOEXEC[b] = ce;
     OBJ[a] = NEXT_OBJ; OBJ[b] = NEXT_OBJ + 1; NEXT_OBJ += 2;
     *fds = a as i32;
     *fds.add(1) = b as i32;
